@@ -84,10 +84,19 @@ namespace Pistache::Http
 
             std::ostream os(&buf);
 
+            // a header's writer may leave the stream in another number base,
+            // fill or precision: the next header starts from the defaults again
+            const auto flags     = os.flags();
+            const auto fill      = os.fill();
+            const auto precision = os.precision();
+
             for (const auto& header : headers.list())
             {
                 OUT(os << header->name() << ": ");
                 OUT(header->write(os));
+                os.flags(flags);
+                os.fill(fill);
+                os.precision(precision);
                 OUT(os << crlf);
             }
 
